@@ -27,14 +27,14 @@ ABLATIONS = {
  "MustSyncOnVoteChange": ("MC_elect", {}, C([1,2,3],[1,2,3],[]), ["C07"]),
  "HeartbeatCommitCap": ("MC_repl", {"MaxDrops": 1, "MaxLeaderTicks": 1}, C([1,2,3],[1,2,3],[]), ["C13", "C04", "C20"]),
  "TransferRespectsCastVote": ("MC_transfer", {"TickNodes": "{1, 3}", "MaxTerm": 2, "MaxDrops": 0, "TransferTargets": "{2}", "QuiescentTicks": "FALSE"}, C([1,2,3],[1,2,3],[]), ["C02", "C06"]),
- "TransferVoteUpToDate": ("MC_transfer", {"MaxProposals": 1, "MaxDrops": 1, "TransferTargets": "{2}", "EagerReady": "FALSE", "MaxLeaderTicks": 0}, C([1,2,3],[1,2,3],[]), ["C03"]),
+ "TransferVoteUpToDate": ("MC_transfer", {"MaxProposals": 1, "MaxDrops": 1, "DropTypes": '{"App"}', "DropTo": "{2}", "TransferTargets": "{2}", "MaxLeaderTicks": 3, "MaxNet": 6, "MaxDepth": 70, "MaxLog": 3, "QuiescentTicks": "FALSE"}, C([1,2,3],[1,2,3],[]), ["C03"], ["C03.GrantOnlyUpToDate"]),
  "TimeoutNowNeedsWholeLog": ("MC_transfer", {"MaxProposals": 1, "MaxDrops": 0, "TransferTargets": "{2}", "EagerReady": "FALSE"}, C([1,2,3],[1,2,3],[]), ["C17"]),
  "TransferTimeoutAlwaysChecked": ("MC_transfer", {"CheckQuorumOn": "TRUE", "MaxDrops": 1, "TransferTargets": "{2}", "MaxLeaderTicks": 4}, C([1,2,3],[1,2,3],[],check_quorum=True), ["C17", "C10"]),
  "AbortTransferWhenNotVoter": ("MC_conf", {"MVoters": "{1, 2, 3}", "MaxConf": 1, "ConfMenuIds": "{3}", "MaxTransfers": 1, "TransferTargets": "{3}", "MaxDrops": 1}, C([1,2,3],[1,2,3],[]), ["C17"]),
- "JointUsesBothHalves": ("MC_conf", {"MVoters": "{1, 2, 3}", "MaxConf": 1, "ConfMenuIds": "{5}", "MaxProposals": 1, "MaxDrops": 2, "MaxLog": 4}, C([1,2,3],[1,2,3],[]), ["C04", "C01"]),
+ "JointUsesBothHalves": ("MC_conf", {"MVoters": "{1, 2}", "MaxConf": 1, "ConfMenuIds": "{5}", "MaxProposals": 1, "MaxDrops": 1, "DropTypes": '{"App"}', "DropTo": "{2}", "MaxLog": 5, "MaxNet": 5, "MaxDepth": 70, "LazyApply": "FALSE"}, C([1,2,3],[1,2],[]), ["C04", "C01"], ["C04.LeaderQuorumDurable"]),
  "HupChecksUnappliedConf": ("MC_conf", {"TickNodes": "{1, 2}", "MaxTerm": 2, "MaxConf": 1, "ConfMenuIds": "{1, 2}"}, C([1,2,3],[1,2],[]), ["C09"]),
  "ProposalConfFilter": ("MC_conf", {"MaxConf": 2, "ConfMenuIds": "{1, 3}"}, C([1,2,3],[1,2],[]), ["C09"]),
- "SnapshotCaughtUp": ("MC_snap", {"MaxDrops": 2, "AllowDup": "TRUE", "MaxLeaderTicks": 2}, C([1,2,3],[1,2,3],[]), ["C13"]),
+ "SnapshotCaughtUp": ("MC_snap", {"MaxDrops": 1, "DropTypes": '{"App"}', "DropTo": "{3}", "CompactNodes": "{1}", "MaxLeaderTicks": 1, "MaxProposals": 1, "MaxNet": 5, "MaxDepth": 60, "MaxLog": 3}, C([1,2,3],[1,2,3],[]), ["C13"], ["C13.NoneWhileSnapshot"]),
  "RestoreRejectsStale": ("MC_snap", {"MaxDrops": 1, "AllowDup": "TRUE", "MaxLeaderTicks": 2, "MaxProposals": 2, "MaxLog": 4}, C([1,2,3],[1,2,3],[]), ["C15", "C20"]),
  "ReadIndexRespChecksLog": ("MC_read", {"TickNodes": "{1}", "MaxTerm": 1, "MaxProposals": 1, "MaxLog": 3, "MaxDrops": 1}, C([1,2,3],[1,2,3],[]), ["C20", "C04"]),
  "ReadAcksAreVoterQuorum": ("MC_read", {"MIds": "{1, 2, 3}", "MVoters": "{1, 2}", "MLearners": "{3}", "TickNodes": "{1, 2}", "MaxTerm": 2, "MaxProposals": 1, "MaxLog": 3, "MaxDrops": 2}, C([1,2,3],[1,2],[3]), ["C08"]),
